@@ -200,6 +200,7 @@ def ast_is_kwargs_pop_or_get(node, value_dump) -> bool:
         and value_dump == ast.dump(node.func.value)
         and node.func.attr in {"pop", "get"}
         and len(node.args) == 2
+        and ast_is_constant(node.args[0])
         and isinstance(ast_get_constant_value(node.args[0]), str)
     )
 
